@@ -6,6 +6,14 @@ V = pathlib.Path(__file__).resolve().parent.parent
 props = [json.loads(l) for l in (V / "properties.jsonl").read_text().splitlines() if l.strip()]
 
 CHECKS = {
+    "C01": dict(
+        text="Static: SYNC table folded, checked and pinned; the real Burst.__init__/as_bits/interleave/deinterleave/extract_data are analysed by abstract interpretation with the payload PDU as a box of N symbolic bits: "
+             "for 8 payload kinds x 4 data SYNC patterns x symbolic colour code the bits handed to the PDU decoder are exactly the assembled payload atoms (through the real BPTC(196,96); rate 3/4 via the C10 inverse pair), "
+             "data type/colour code equal, re-serialisation identical; voice bursts around each voice SYNC and around a valid EMB word with 32 symbolic embedded bits re-serialise identically on every feasible path "
+             "(affine path constraints prove that a valid EMB never collides with a SYNC pattern).",
+        technique="constant folding + table algebra; abstract interpretation over GF(2)-affine bit forms with affine path constraints",
+        note="trusted: C02/C03/C06/C10 verdicts (component codes and PDU codecs), bitarray models; voice bursts analysed with burst_type=Vocoder",
+        ref="DESIGN.md §3 C01"),
     "C02": dict(
         text="Static: the 196-entry interleave table is folded from the source and checked exhaustively against the ETSI formula; "
              "encode/extract/repair plumbing is decided for all 2^96 messages at once by abstract interpretation over GF(2)-affine forms "
@@ -66,6 +74,26 @@ CHECKS = {
         technique="constant folding + GF(2^8) algebra; finite-function evaluation; abstract interpretation over GF(2)-affine forms",
         note="trusted: CPython ast, sa/algebra.py GF(256) arithmetic, bytes/int operation models",
         ref="DESIGN.md §3 C11"),
+    "C17": dict(
+        text="Static: every path of the real HSTRP and RRS datagram_received (18 + 65 paths) is enumerated by abstract interpretation with the decoder replaced by 'raises | None | HSTRP with symbolic type bits, S/N, payload kind' "
+             "and the transport as an effect-recording stub; hstrp_send_ack/heartbeat/rrs_confirm/deepcopy/as_bytes are interpreted for real, so each answer's bytes are bit forms over the request's atoms. Rules over (fixed type bits, effects, final state): "
+             "never raises, acks never answered, exactly one ack with the request's S/N and no payload, heartbeat echo only while connected, connected flag, registry updates, one bounded-S/N confirm per registration.",
+        technique="path enumeration by abstract interpretation with symbolic booleans (trace partitioning), effect sequences per path",
+        note="trusted: the decoder abstraction (any datagram either is rejected or yields an HSTRP object); 'never raises' is decided for the handler paths under that abstraction, not for the byte-level decoder",
+        ref="DESIGN.md §3 C17"),
+    "C18": dict(
+        text="Static: the real P2P handler + RepeaterStorage + Repeater are analysed for each request kind x authorisation state of the sender with a symbolic datagram body (effects = sendto calls): reject exactly once to the requester when "
+             "unregistered, serve only to stored/own addresses when registered, registration marks exactly the sender; RDAC: for every step value and datagram shape the effects, the sender's and another peer's step entries and the completion callback are inspected; "
+             "repository-wide single-writer scan for the registered attribute.",
+        technique="abstract interpretation of handlers on scenario x state products with effect recording; syntax-tree ownership scan",
+        note="trusted: read_snmp_values replaced by a no-op; datagram bodies of fixed analysed length; histories are covered as (any stored state) x (any next datagram), i.e. inductively per step",
+        ref="DESIGN.md §3 C18"),
+    "C20": dict(
+        text="Static: ownership rules over the syntax tree (registry writers, read-only lookups, single writer of Repeater.id) plus abstract interpretation of the real storage methods on scenario sequences with symbolic patch values "
+             "(identity of repeated lookups, growth only on auto-create of unseen addresses, key == record.id coherence, patch touches exactly the named fields of exactly the matched record).",
+        technique="syntax-tree ownership / who-may-write rules; abstract interpretation of scenario sequences",
+        note="trusted: uuid4 results distinct; sequences beyond the analysed scenarios are covered by the ownership rules only",
+        ref="DESIGN.md §3 C20"),
 }
 
 NA_REASON = {
